@@ -38,7 +38,7 @@ CHECKS = {
    "Every privileged message kind (chat, captions, user messages, op/unop/present/unpresent/shutup/unshutup, kick, identify, lock/unlock, clearchat, setdata, subgroups, record/unrecord, maketoken/edittoken/listtokens, offer) is sent in every membership state (never joined, eight kinds of refused join, joined, left, kicked) under 20 permission sets, one fresh group per case; its effect is read at the OTHER parties (nonce at an observer, joined/user change at the target and all members, kicked + socket closed, probe joins after lock, RECORDING member, token store) and must appear iff the required permission is held; a refusal leaves every other party with no new event; token delegation (never more than held, own group, expiry), cross-group token edits/listing, revocation followed by retries (incl. bursts racing the revocation), WHIP over HTTP with wrong/missing bearer, and random 15-step sequences against a membership/permission model. Held on the cases run.",
    "Watchdogs (90 s) never produce a violation: interrupted scenarios are counted as undecided, more than 2 + 0.1 % of them makes the run inconclusive. includeSubgroups (ignored by the parser) and the 404 for an unknown WHIP bearer are accepted as refusals.", "5/C11"),
  "C13": ("exploration", "Go race detector + instrumented-mutex wait-for/lock-order monitor + exactly-once/FIFO/lost-wakeup checker over unbounded.Channel",
-   "Child processes run fake-client storms on the group API (with expiry sweeps racing joins to idle groups), real websocket clients with statistics pollers and members that change their data all the time, real PeerConnections published, recorded (operator toggles the real recorder) and torn down, WHIP sessions over HTTP, WHIP and recording clients joining/closing/kicked (also out of an autokick group when its last operator leaves), shutdown with every member kind, and producers vs galene's queue consumption pattern, under -race and with perturbation at every lock operation; every other repetition runs from a binary with a monitor-free mutex wrapper (the lock monitor's own synchronisation would hide races); race reports in the property's anchor files and actual wait-for cycles are violations. Held on the schedules observed.",
+   "Child processes run fake-client storms on the group API (with expiry sweeps racing joins to idle groups), real websocket clients with statistics pollers and members that change their data all the time, real PeerConnections published, recorded (operator toggles the real recorder) and torn down, WHIP sessions over HTTP torn down while a member keeps changing its request, WHIP and recording clients joining/closing/kicked (also out of an autokick group when its last operator leaves), shutdown with every member kind, and producers vs galene's queue consumption pattern, under -race and with perturbation at every lock operation; every other repetition runs from a binary with a monitor-free mutex wrapper (the lock monitor's own synchronisation would hide races); race reports in the property's anchor files and actual wait-for cycles are violations. Held on the schedules observed.",
    "Deadlocks on channels/I-O are outside the wait-for graph (watchdog => inconclusive); 'eventually seen' restated as queue empty at quiescence.", "5/C13"),
  "C14": ("exploration", "event-fold monitor: each client's user list folded from add/change/delete vs Group.GetClients at logical quiescence",
    "Real server in a child process, 4-12 websocket clients over 3 groups, 3 concurrent drivers issuing random membership/moderation/setdata actions, joins to a redirecting group, leave/rejoin storms across two groups (pipelined leave+join, residents changing their data all the time), and description files made unreadable for a moment while a stranger tries to join; at check points (ping/pong barrier quiescence) every client's folded view must equal the true membership (ids, usernames, permissions, data); duplicate adds, events that are certainly about another group, phantom and missing members are violations (stale deletes/changes for a client back in a group of the same name are ignored, as a client would). Held on the executions observed.",
